@@ -19,12 +19,20 @@ def own_nodes(fnode: ast.AST) -> Iterable[ast.AST]:
         stack.extend(ast.iter_child_nodes(n))
 
 
-def body_nodes(fi: FuncInfo) -> Iterable[ast.AST]:
-    for st in fi.node.body:
+def body_nodes(fi: FuncInfo) -> List[ast.AST]:
+    """All nodes executed in the function's own frame (cached per function)."""
+    cached = getattr(fi, "_body_nodes", None)
+    if cached is not None:
+        return cached
+    out: List[ast.AST] = []
+    body = fi.node.body if isinstance(fi.node.body, list) else [fi.node.body]
+    for st in body:
         if isinstance(st, (ast.FunctionDef, ast.AsyncFunctionDef, ast.ClassDef)):
             continue
-        yield st
-        yield from own_nodes(st)
+        out.append(st)
+        out.extend(own_nodes(st))
+    fi._body_nodes = out
+    return out
 
 
 def assigned_names(fi: FuncInfo) -> Set[str]:
